@@ -28,12 +28,26 @@ TEXT = {
               'map is one flat map threaded through the render), capture runs its body against a private buffer, binds exactly '
               'the text and leaves output and trim state untouched (capture_seq, captureM_keeps_tw), a loop restores its variable '
               "and forloop on normal end, break and continue (loop_restores), an include starts from the includer's current "
-              'variables and its assignments do not flow back (include_sees_vars, include_isolated). Tie: the `scope` stream '
+              'variables and its assignments do not flow back (include_sees_vars, include_isolated). Capture equivalence '
+              '(capture_equiv, capture_equiv_root, capture_equiv_root_conv/_iff, capture_equiv_engine for the engine\'s own context, capture_equiv_root_err for a failing body: same error, re-wrapped at the capture tag): for every body that renders normally in place, '
+              'capture-then-print puts exactly the same bytes through the trim writer and leaves the same variables plus the '
+              'captured one - in any state whose pending text has no trailing white space and whose trim flag is clear, in '
+              'particular for whole templates, where the two render normally under exactly the same conditions; each side '
+              'condition comes with a proved counterexample (capture_needs_no_trailing_space, capture_needs_flag_clear, '
+              'capture_trailing_trim_differs). Flat scope: a fragment changes only the variables it writes, loops restoring '
+              'their own two (only_written_change); a condition on the variables established at the end of the bodies of an '
+              'if / case / for / tablerow block holds after the block (block_end_scope, if_scope, case_scope, loop_scope, '
+              'loop_scope_visited), an assignment inside a block body is still bound after the block whatever follows it '
+              'inside (assign_scope_global; assign_scope_expr for an expression whose value the preceding nodes determine), composed for three nested blocks in assign_scope_nested. Tie: the `scope` stream '
               'answers every case by the model and the real engine; an independent reference environment interpreter checks every '
-              'probe value on the real output, and the capture equivalence is checked as a metamorphic relation between two real '
-              'renders.'),
+              'probe value on the real output, and the capture equivalence is also checked as a metamorphic relation between two '
+              'real renders.'),
     "design_ref": 'DESIGN.md 6 C12',
-    "note": NOTE + ('The capture equivalence (capturing then printing = rendering in place) is checked dynamically, not yet a theorem.'),
-    "technique": ('Lean 4 proof (state-threading lemmas on the render monad) + model/implementation correspondence + independent '
+    "note": NOTE + ('The capture equivalence is a theorem about the bytes of the fragment and the variables; it does not claim that '
+              'what follows the fragment sees the same trim-writer state (a trailing -%} inside the body trims what follows only '
+              'in place: capture_trailing_trim_differs). The scope rules are pre/post-condition rules on the variables; which '
+              'branch or iteration runs enters through their hypotheses.'),
+    "technique": ('Lean 4 proof (state-threading lemmas on the render monad; independence of the render from the trim-writer state; '
+              'frame and pre/post-condition rules by mutual induction over the node tree) + model/implementation correspondence + independent '
               'reference and metamorphic oracle'),
 }
